@@ -52,6 +52,8 @@ def actor_ops(writer_jobs):
         st.fixed_dictionaries({"o": st.just("init"), "j": st.integers(0, 2)}),
         st.fixed_dictionaries({"o": st.just("init"), "j": st.integers(0, 1)}),
         st.fixed_dictionaries({"o": st.just("write"), "j": st.sampled_from(writer_jobs), "k": st.sampled_from(["x", "y"]), "v": st.sampled_from([1, "s", [1, 2], {"n": 1}])}),
+        # the whole document assigned at once (job.doc = {...}): one write as far as any reader can tell
+        st.fixed_dictionaries({"o": st.just("write"), "j": st.sampled_from(writer_jobs), "k": st.sampled_from(["x", "y"]), "v": st.sampled_from([1, [1, 2]]), "whole": st.just(True)}),
         st.fixed_dictionaries({"o": st.just("read"), "j": st.integers(0, 2)}),
         st.fixed_dictionaries({"o": st.just("len")}),
     )
@@ -122,7 +124,10 @@ def make_actor(ops, root, aidx, nactors):
                 if j % nactors != aidx:
                     out.append(None)
                 else:
-                    job(j).doc[str(op.get("k", "x"))] = json.loads(json.dumps(op.get("v")))
+                    if op.get("whole"):
+                        job(j).doc = {str(op.get("k", "x")): json.loads(json.dumps(op.get("v"))), "w": 1}
+                    else:
+                        job(j).doc[str(op.get("k", "x"))] = json.loads(json.dumps(op.get("v")))
                     out.append(None)
             elif o == "read":
                 out.append(job(op.get("j", 0) % 3).doc())
@@ -144,7 +149,7 @@ def sequential_docs(case, init_docs, nactors):
         for i, op in enumerate(ops):
             if isinstance(op, dict) and op.get("o") == "write" and op.get("j", 0) % 3 % nactors == a:
                 j = op.get("j", 0) % 3
-                d = dict(states[j][-1])
+                d = {"w": 1} if op.get("whole") else dict(states[j][-1])
                 d[str(op.get("k", "x"))] = json.loads(json.dumps(op.get("v")))
                 states[j].append(d)
                 writes[j].append((a, i))
@@ -385,6 +390,7 @@ def run_case(case, ctx):
 CONSTRUCTED = [
     {"start": "empty", "mode": "bounded", "schedules": [[]], "actors": [[{"o": "init", "j": 0}], [{"o": "init", "j": 0}]]},
     {"start": "empty", "mode": "bounded", "schedules": [[]], "actors": [[{"o": "write", "j": 0, "k": "x", "v": 1}, {"o": "write", "j": 0, "k": "y", "v": [1, 2]}], [{"o": "read", "j": 0}, {"o": "len"}, {"o": "read", "j": 0}]]},
+    {"start": "populated", "mode": "bounded", "schedules": [[]], "actors": [[{"o": "write", "j": 0, "k": "x", "v": [1, 2], "whole": True}, {"o": "write", "j": 0, "k": "y", "v": 1, "whole": True}], [{"o": "read", "j": 0}, {"o": "read", "j": 0}]]},
     {"start": "populated", "mode": "bounded", "schedules": [[]], "actors": [[{"o": "write", "j": 0, "k": "x", "v": "s"}, {"o": "init", "j": 2}], [{"o": "init", "j": 2}, {"o": "write", "j": 1, "k": "x", "v": {"n": 1}}, {"o": "read", "j": 0}]]},
     {"start": "noworkspace", "mode": "bounded", "schedules": [[]], "actors": [[{"o": "init", "j": 0}, {"o": "len"}], [{"o": "init", "j": 1}, {"o": "len"}]]},
     {"start": "empty", "mode": "random", "schedules": [[0, 1, 2], [2, 2, 1, 0, 0, 1], [1, 0]], "actors": [[{"o": "init", "j": 0}, {"o": "write", "j": 0, "k": "x", "v": 1}], [{"o": "init", "j": 0}, {"o": "write", "j": 1, "k": "x", "v": 1}], [{"o": "init", "j": 0}, {"o": "read", "j": 1}, {"o": "len"}]]},
